@@ -101,6 +101,8 @@ func (c *c19) scalar(kind string, val []byte) {
 		}
 		ev["rval"] = B(rv)
 		ev["rn"] = r.Read
+		// hand the reader back to the pool: the next event's reader must start clean whatever this one did
+		r.Recycle()
 	}()
 	c.out.Emit(ev)
 }
@@ -398,7 +400,7 @@ func (c *c19) run(seed int64, n int, thorough bool, casesFile string) {
 		}
 	})
 	step(func() {
-		for _, l := range []int{0, 1, 2, 15, 16, 17, 31, 32, 33, 255, 256, 4095, 4096, 4097, 8192} {
+		for _, l := range []int{0, 1, 2, 15, 16, 17, 31, 32, 33, 255, 256, 4095, 4096, 4097, 8192, 70000, 3} {
 			b := make([]byte, l)
 			for i := range b {
 				b[i] = byte(r.Intn(256))
